@@ -508,6 +508,19 @@ def gen_large(rng, n, m):
             "layout": "C", "large": True}
 
 
+def gen_structured(rng, n):
+    """Two well separated point clouds with Euclidean costs: the network simplex needs many more pivots on such
+    geometric costs than on random ones (a few dozen points per side suffice to pass 5*(n+m) pivots)."""
+    d = 2
+    def cloud(cx):
+        return [[cx + rng.gauss(0, 1), rng.gauss(0, 1)] for _ in range(n)]
+    A = cloud(0.0) if rng.random() < 0.5 else cloud(0.0)[: n // 2] + cloud(8.0)[: n - n // 2]
+    B = cloud(8.0)[: n // 2] + cloud(0.0)[: n - n // 2]
+    Cm = [[math.sqrt(sum((a[k] - b[k]) ** 2 for k in range(d))) for b in B] for a in A]
+    return {"kind": "direct", "p": gen_masses(rng, n, "uniform"), "q": gen_masses(rng, n, "uniform"), "C": Cm,
+            "tags": ["uniform", "uniform", "two-clouds"], "layout": "C", "large": True}
+
+
 def run(ctx, replay=None):
     C.run_gate(ctx)
     if replay and replay["case"].get("large"):
@@ -516,7 +529,8 @@ def run(ctx, replay=None):
         return ctx.finish("proof")
     if not replay:
         shapes = [(300, 230)] if ctx.quick else [(300, 230), (257, 256), (200, 400)]
-        large_probe(ctx, [gen_large(ctx.rng, n, m) for n, m in shapes])
+        sizes = [60, 120] if ctx.quick else [60, 90, 120, 200]
+        large_probe(ctx, [gen_large(ctx.rng, n, m) for n, m in shapes] + [gen_structured(ctx.rng, n) for n in sizes])
     big = 25 if ctx.quick else 40
     ncases = 220 if ctx.quick else 1500
     cases = [replay["case"]] if replay else CORPUS + [gen_case(ctx.rng, big) for _ in range(ncases)]
